@@ -38,6 +38,13 @@ lib.effects extended with the two ways a Vec local carries work inside a functio
 push / extend before the loop over it; an explicit-stack traversal that only succeeds with its work-list drained), so
 that "the layer directory is removed first" and "every scope is written where it is read" are stated on what happens to
 which path, not on recursion vs. work-list or four calls vs. one table.
+Robustness round 3 (same obligations, recognised on more spellings):
+  - rows are read on C02_helpers.outcomes_ctx / lifted_args_ctx: a private routine called with a literal switch
+    (`produce(.., None)` / `produce(.., Some(&data))`, a private two-variant enum) is read with the arms its arguments rule
+    out removed (certain effects on the specialised dominator tree, merged values without the untaken alternatives)
+  - RowPaths: private path accessors are transparent but the reader / callbacks stay opaque (`Paths::new(dir, &data.name).toml()`)
+  - the TOML bytes may reach the write through views of the same text (`as_bytes`, `into_bytes`, `as_str` ...); a private
+    read-and-parse helper in the reader is opened on its success payload (H.open_payload)
 """
 from . import layer_env_common as L
 from . import C02_helpers as H
@@ -89,7 +96,7 @@ def OPAQUE():
 def _toml_serialised(v):
     """x of `toml::to_string(x)` (success payload) or None"""
     import re
-    v = strip(v)
+    v = H.peel_views(v)
     if v[0] == 'call' and re.match(r'^toml::(ser::)?to_(string|string_pretty|vec)$', v[1]) and len(v[2]) == 1:
         return v[2][0]
     return None
@@ -146,7 +153,7 @@ def row_carries(rep, prog, sl, E, LP, ROLES, r, tag, where, o, must, may):
         names = cb_names([e]) if e.kind == 'CALLBACK' else []
         if not names or names[0] not in FALLIBLE_CBS or not e.args or len(e.args) < 3:
             continue
-        m, a = names[0], strip(e.args[2])
+        m, a = names[0], strip(H.peel_some(e.args[2]))     # `(Some(x) as Some).0` handed through a literal switch is x
         if m == 'create':
             ok = LP.classify(a) == ('DIR',)
             want = 'the layer directory'
@@ -217,6 +224,24 @@ def row_carries(rep, prog, sl, E, LP, ROLES, r, tag, where, o, must, may):
             late = [n for i, n in oi if i > ti[-1]]
             rep.check(not late, 'R1', tag + '/types-after-callbacks', where, 'layer.types() is asked after every `&mut self` callback of the row',
                       'row %s: the written types are asked before Layer::%s runs (stale when the callback changes the layer value)' % (r, '/'.join(late)))
+
+
+class RowPaths(LayerPaths):
+    """LayerPaths whose "private path constructors are transparent" step leaves the reader and the user callbacks alone: a
+    path built by a private accessor from `layer_data.name` (`Paths::new(dir, &read_layer(..)?.name).toml()`) is still the
+    TOML of *the layer just read*, which is what the LN predicate recognises"""
+
+    def classify(self, v, depth=0):
+        r = self._base(v, depth)
+        if r is None and depth == 0 and v is not None:
+            from .lib import paths as P
+            if P.SLICER is not None:
+                iv = P.SLICER.inline_deep(v, keep=(LayerPaths.sbom_path_fn,) + OPAQUE())
+                if iv != v:
+                    r = self.classify(iv, 1)
+                if r is None:
+                    r = LayerPaths.classify(self, v, depth)
+        return r
 
 
 BUILDER = 'libcnb::layer::trait_api::LayerResultBuilder::<M>::'
@@ -325,9 +350,9 @@ def run(ctx, rep):
         return v[0] == 'field' and v[2] == 'name' and find_call(v[1], RL) is not None
     # `layer_data.path` of the layer just read is the layer directory (R5 reader/path establishes it)
     is_layer_path = lambda v: v[0] == 'field' and v[2] == 'path' and strip(v[1])[0] == 'call' and strip(v[1])[1] == RL
-    LP = LayerPaths(is_ld, is_ln, dir_values=(is_layer_path,))
+    LP = RowPaths(is_ld, is_ln, dir_values=(is_layer_path,))
     kl = lambda e: LP.classify(e.path) if e.path is not None else None
-    outs = outcomes(E, hl)
+    outs = H.outcomes_ctx(E, hl)     # lib.effects.outcomes, each callee read under its call site's literal switches
     rows = {}
     for o in outs:
         decs = [(c, s, lv) for c, s, lv in o.decisions() if c.enum in (STRAT, MIGR)]
@@ -426,12 +451,11 @@ def run(ctx, rep):
     lr = prog.adt('libcnb::layer::trait_api::LayerResult')
     lr_fields = sorted(f['name'] for v in lr['variants'] for f in v['fields'])
     wl_calls = [c for c in callers.get(WL, []) if c.name == WL and c.fn.crate == 'libcnb']
-    from .lib.tables import lifted_args
     rows3 = []
     seen_subj = {}
     kinds_seen = set()
     for c0 in wl_calls:
-        for f, c, a in lifted_args(prog, sl, c0, 'libcnb', stop_at=(hl.path,)):
+        for f, c, a in H.lifted_args_ctx(E, c0, 'libcnb', stop_at=(hl.path,)):
             rows3.append((f, c, a, c0))
     rep.floor('R3', 'writer_call_sites', len(rows3))
     for f, c, a, c0 in rows3:
@@ -617,7 +641,8 @@ def run(ctx, rep):
         e_ok = ev[0] == 'unwrap' and ev[1][0] == 'call' and ev[1][1] == L.R_LAYER and len(ev[1][2]) == 1 and lpr.classify(ev[1][2][0]) == ('DIR',)
         rep.check(e_ok, 'R5', 'reader/env', rwhere, 'env <- LayerEnv::read_from_layer_dir(<layer dir>), a read failure fails the reader',
                   'returned env is %s: not (only) what read_from_layer_dir finds in the layer directory' % vstr(ev)[:120])
-        cv = fd.get('content_metadata', ('unknown',))
+        # a private helper that reads + parses the file it is given is transparent (success-payload normal form)
+        cv = H.open_payload(sl, fd.get('content_metadata', ('unknown',)), keep=(L.R_LAYER,))
         c_ok = False
         if cv[0] == 'unwrap' and cv[1][0] == 'call' and re.match(r'^toml::(de::)?from_(str|slice)$', cv[1][1]) and len(cv[1][2]) == 1:
             src = cv[1][2][0]
